@@ -727,7 +727,7 @@ class WingSegment:
         ll_offset_data = import_value("ll_offset", self._input_dict, self._unit_sys, 0)
 
         # Set lifting-line on LAC as predicted by Kuchemann
-        if ll_offset_data == "kuchemann":
+        if isinstance(ll_offset_data, str) and ll_offset_data == "kuchemann":
 
             # If the sweep is not constant, don't calculate an offset
             kuchemann_invalid = False
